@@ -356,6 +356,7 @@ func init() {
 			func(c *Ctx) { c.ruleLoadLink("R-LOADLINK") },
 			func(c *Ctx) { c.ruleForward("R-FORWARD") },
 			func(c *Ctx) { c.ruleNsDeref("R-NSDEREF") },
+			func(c *Ctx) { c.ruleTerm("R-TERM", c.entryData(), false); c.R.Floor("R-TERM", 4) },
 		},
 	})
 	register(&PropSpec{
@@ -461,6 +462,7 @@ func init() {
 				c.ruleExplicit("R-EXPLICIT", c.Gen, roots, nil, false)
 			},
 			func(c *Ctx) { c.ruleCodegenFlow("R-FLOW") },
+			func(c *Ctx) { c.ruleYamlNil("R-YAMLNIL") },
 		},
 	})
 	register(&PropSpec{
